@@ -142,7 +142,7 @@ def run(P, R):
     r4 = R.rule('R4', 'decision-site facts',
                 'every decision of a Master-driven state (DISTRIBUTION, OPERATION, CONCILIATION, RESTARTING, '
                 'SHUTTING_DOWN) is a follow of the Master state, or is taken in a _master_* method, or under the '
-                'facts is_master() / check_master() / master_state == that state', 8)
+                'fact is_master(), or under the fact master_state == that state (the Master is already there)', 8)
     seen = set()
     for st in members:
         d, sites = fsm.decisions(st)
@@ -154,8 +154,7 @@ def run(P, R):
                 fm = factmap(unit)
                 facts = fm.at(node)
                 ok = unit.name.startswith('_master_')
-                ok = ok or any(f[1] and f[0] in ('self.state_modes.is_master()', 'self.state_modes.check_master()')
-                               for f in facts)
+                ok = ok or any(f[1] and f[0] == 'self.state_modes.is_master()' for f in facts)
                 ok = ok or any(f[1] and f[0] == 'self.state_modes.master_state == SupvisorsStates.%s' % x for f in facts)
                 R.check(r4, ok, '%s decides %s under Master authority' % (unit.qual, x),
                         'local-decision|%s|%s' % (unit.qual, x), unit.loc(node),
